@@ -138,6 +138,7 @@ package rdb
 //@ ensures result == (len(recv.addedPairs) + len(recv.deletedPairs) == 0)
 
 //@ func Batch.Add
+//@ reveal batchInv
 //@ modifies recv
 //@ modifies recv.addedPairs[len(recv.addedPairs):cap(recv.addedPairs)]
 //@ ensures[len] len(recv.addedPairs) == old(len(recv.addedPairs)) + 1 && len(recv.deletedPairs) == old(len(recv.deletedPairs)) && !recv.sorted
@@ -149,6 +150,7 @@ package rdb
 //@ ensures[inv] old(batchInv(recv)) ==> batchInv(recv)
 
 //@ func Batch.Del
+//@ reveal batchInv
 //@ modifies recv
 //@ modifies recv.deletedPairs[len(recv.deletedPairs):cap(recv.deletedPairs)]
 //@ ensures[len] len(recv.deletedPairs) == old(len(recv.deletedPairs)) + 1 && len(recv.addedPairs) == old(len(recv.addedPairs)) && !recv.sorted
@@ -160,6 +162,7 @@ package rdb
 //@ ensures[inv] old(batchInv(recv)) ==> batchInv(recv)
 
 //@ func RDB.CreateBatch
+//@ reveal batchInv
 //@ ensures result != nil && fresh(result) && len(result.addedPairs) == 0 && len(result.deletedPairs) == 0 && result.sorted
 //@ ensures[inv] batchInv(result)
 
@@ -189,7 +192,7 @@ package rdb
 //@ spec oneVal(l kvList) bool = forall(i, 0, len(l), len(l[i].values) == 1 && len(l[i].values[0]) < 4294967296)
 // a batch is built by Add/Del (which clear the sorted flag) and executed once: when its lists are non-empty it is
 // not flagged sorted ("The same batch cannot be applied twice")
-//@ spec batchInv(b *Batch) bool = keysNonNil(b.addedPairs) && keysNonNil(b.deletedPairs) && ref(b.addedPairs) != ref(b.deletedPairs) && (b.sorted ==> len(b.addedPairs) + len(b.deletedPairs) == 0)
+//@ pred batchInv(b *Batch) = keysNonNil(b.addedPairs) && keysNonNil(b.deletedPairs) && ref(b.addedPairs) != ref(b.deletedPairs) && (b.sorted ==> len(b.addedPairs) + len(b.deletedPairs) == 0)
 
 // The comparator handed to sort.Slice orders by key bytes (the sorting itself is the library's assumed contract).
 //@ func kvList.Sort@less
@@ -211,6 +214,7 @@ package rdb
 //@ ensures[same] old(keysNonNil(*kv)) ==> keysNonNil(*kv)
 
 //@ func Batch.sort
+//@ reveal batchInv
 //@ ghost g0 rankseq
 //@ requires batch != nil && batchInv(batch)
 //@ modifies batch
@@ -232,6 +236,7 @@ package rdb
 // Ghost names: rA[j], rD[j] = rank of the j-th added / deleted key after sorting, rK[k] = rank of the k-th key of
 // the result, rL = rank of lastKey, wA/wD = the position witnesses built as the cursors move.
 //@ func Batch.getAffectedKeys
+//@ reveal batchInv
 //@ flag rank on
 //@ flag splitinv on
 //@ ghost wA0 seq, wD0 seq, rK0 rankseq, rL0 rank
